@@ -4572,7 +4572,20 @@ impl<'a> Parser<'a> {
 
     fn parse_type_reference(&mut self) -> Result<TypeReference, JsError> {
         let start = self.current.span;
-        let name = self.parse_identifier()?;
+        let mut name = self.parse_identifier()?;
+        // Qualified name: Namespace.Inner.Type
+        if self.check(&TokenKind::Dot) {
+            let mut qualified = name.name.to_string();
+            while self.match_token(&TokenKind::Dot) {
+                self.chain_step()?;
+                qualified.push('.');
+                qualified.push_str(self.parse_identifier_name()?.name.as_str());
+            }
+            name = Identifier {
+                name: self.intern(&qualified),
+                span: self.span_from(start),
+            };
+        }
         let type_arguments = self.parse_optional_type_arguments()?;
         let span = self.span_from(start);
         Ok(TypeReference {
